@@ -589,6 +589,15 @@ func (o *orbitDB) Open(ctx context.Context, dbAddress string, options *CreateDBO
 	}
 
 	haveDB := o.haveLocalData(ctx, dbCache, parsedDBAddress)
+	if *options.LocalOnly && !haveDB && directory != o.directory {
+		// Create records a database in the directory of the instance, which is also where
+		// createStore keeps its data, whatever Directory option it is given: a database
+		// created here is a local one for an Open with the same option
+		if localCache, err := o.loadCache(o.directory, parsedDBAddress); err == nil {
+			haveDB = o.haveLocalData(ctx, localCache, parsedDBAddress)
+		}
+	}
+
 	if *options.LocalOnly && !haveDB {
 		return nil, fmt.Errorf("database doesn't exist: %s", dbAddress)
 	}
